@@ -122,6 +122,18 @@ def extra(notes, base):
     return out
 
 
+def baseline_clean(base, viol, counters):
+    """The differential oracle compares with a baseline audit (4096-bit RSA keys and CAs, fixed-size keys): that baseline itself must carry no size note at all (absolute part of the oracle)."""
+    import re
+    for n, o in base.items():
+        if n == 'ssh-dss':
+            continue
+        counters['baseline_entries_checked'] = counters.get('baseline_entries_checked', 0) + 1
+        bad = [t for t in o['notes']['fail'] + o['notes']['warn'] if 'modulus' in t or re.search(r'\d+-bit', t)]
+        if bad:
+            viol.append(_v('C11/size-note-on-large-or-fixed-size-key:' + n, 'a 4096-bit or fixed-size key (4096-bit RSA CA) carries a size note', notes=bad))
+
+
 def band(bits):
     return 'fail' if bits < 2048 else 'warn' if bits < 3072 else 'none'
 
@@ -162,6 +174,7 @@ def run_rsa(c):
     if res is None or base is None:
         viol.append(_v('C11/audit-failed:status%s' % (r.status if res is None else rb.status), 'audit did not complete', out=(r if res is None else rb).out[-300:]))
         return viol, counters
+    baseline_clean(base, viol, counters)
     if p.count('hostkey-presented') == 0:
         return None, {'why': 'no host key probe reached the peer'}
     true_bits = wire.blob_facts(wire.rsa_blob(c['bits']))['bits']
@@ -209,6 +222,7 @@ def run_cert(c):
     if res is None or base is None:
         viol.append(_v('C11/audit-failed:status%s' % (r.status if res is None else rb.status), 'audit did not complete', out=(r if res is None else rb).out[-300:]))
         return viol, counters
+    baseline_clean(base, viol, counters)
     facts = wire.blob_facts(wire.key_blob(dict({'type': ht, 'bits': c['bits'], 'ca': c['ca']}, **(c.get('var') or {}))))
     if c.get('var'):
         counters['certificate_field_variants'] = 1
@@ -342,6 +356,7 @@ def run_partial(c):
     if res is None or base is None:
         viol.append(_v('C11/audit-failed:status%s' % (r.status if res is None else rb.status), 'audit did not complete', out=(r if res is None else rb).out[-300:]))
         return viol, counters
+    baseline_clean(base, viol, counters)
     if p.count('hostkey-refused') == 0:
         return viol, counters
     counters['probes_refused_after_small_key'] = p.count('hostkey-refused')
